@@ -32,6 +32,8 @@ from hpstatic.terms import (sym, intern, show, subterms, calls_in, NONE, num, kw
                             atoms_of, is_num)
 from .common import SCATTERER
 
+MUTATION_TARGETS = {'holopy/core/mapping.py': ['read_map', 'edit_map_indices', 'convert_to_map', 'get_parameter_index', 'check_for_ties', 'add_parameter', 'map_dictionary', 'map_transformed_prior'], 'holopy/inference/model.py': ['add_tie', 'ensure_parameters_are_listlike', 'parameters', 'initial_guess', '_scatterer_from_parameters', 'theory_from_parameters'], 'holopy/scattering/scatterer/scatterer.py': ['from_parameters', 'parameters'], 'holopy/scattering/scatterer/composite.py': ['from_parameters', '_parameters'], 'holopy/scattering/scatterer/spherecluster.py': ['from_parameters', 'scatterers']}
+
 LEVEL = 'other'
 META = dict(
     claimed=True,
